@@ -29,12 +29,18 @@ R = Registry(
         "(membership / not-None outcome) and on every path that removes; the no-mutation event only for an "
         "object that already is the member; every wrapper carries the _sa_instrumented marker and the places "
         "that instrument test it (no double wrapping); pop/popitem/setdefault return the member; the "
-        "NO_ARG sentinel of optional parameters never reaches the underlying call."
+        "NO_ARG sentinel of optional parameters never reaches the underlying call; and, as a bounded model check of "
+        "the statement itself (C38-R12), every wrapper interpreted on all collection states of size <= 4 with all "
+        "arguments of a small domain (repeated elements, one-shot iterators, the collection itself, mapping / pairs / "
+        "keyword forms, negative / out-of-range / reversed indices and slices) leaves the same contents, returns the "
+        "same value, raises the same exception class as the builtin type and fires events that account exactly for "
+        "the members added and removed."
     ),
     not_decided=(
-        "index/slice arithmetic of list.__setitem__/__delitem__ (value level: negative / out-of-range / "
-        "reversed slices), argument order inside delegations, exceptions versus the builtin other than "
-        "the sentinel handling, custom collection classes."
+        "inputs outside the bounded domain of C38-R12 (collections of more than 4 members, unhashable / incomparable "
+        "members, members whose __eq__ differs from identity, several operands to set.update & co., iterables that "
+        "raise midway), exception messages, behaviour of wrapper constructs outside the interpreted subset (exit 2), "
+        "custom collection classes."
     ),
 )
 
@@ -386,10 +392,14 @@ def _self_call_names(fn):
              "and (sets) return NotImplemented only under the negated binop type check")
 def r3(ctx):
     facs = _interfaces(ctx)
-    sib = load("python_mutator_effects.json")["inplace_sibling"]
+    effects = load("python_mutator_effects.json")
+    sib = effects["inplace_sibling"]
     for t in TYPES:
         fac = facs[t]
         decs = _decorators(ctx, fac)
+        # what is compared is which MUTATORS of the collection the two wrappers apply; how each of them reads the
+        # collection (self.symmetric_difference(..), set(self), `x in self`) is its own business (C38-R12 decides the result)
+        mutating = set(effects[t]) | set(python_mutators(t)[0])
         for op, s in sorted(sib[t].items()):
             key = f"{fac.key}.{op}"
             if op not in decs or s not in decs:
@@ -399,7 +409,8 @@ def r3(ctx):
             _, ws, _ = decs[s]
             loc = f"{fac.module.path}:{w.lineno}"
             problems = []
-            a, b = _self_call_names(w), _self_call_names(ws)
+            a = [x for x in _self_call_names(w) if x in mutating]
+            b = [x for x in _self_call_names(ws) if x in mutating]
             delegating = a == [s]
             if not delegating and a != b:
                 problems.append(f"{op} performs self-operations {a} but sibling {s} performs {b}")
@@ -1321,6 +1332,90 @@ def r11(ctx):
                           f"{len(uses)} use(s) of {pname} under `{pname} is not {sent}`", loc)
 
 
+# ----------------------------------------------------------------- R12: bounded model check against the builtin type
+def _model_interp(ctx, t, fac):
+    """a `PyModel` interpreter in which the wrappers of factory `fac` are installed as the mutators of the model
+    collection: the wrapped method `fn` is the builtin method of type `t`, the event helpers only log"""
+    from . import _helpers_str2_q as Q
+    m = ctx.index.module(COLL)
+    helpers = _event_helpers(ctx)
+    interp = Q.PyModel(None)
+    cache = {}
+
+    def module_env(name):
+        if name in cache:
+            return cache[name]
+        if name in helpers:
+            v = Q.EventHelper(helpers[name])
+        elif name in m.functions and isinstance(m.functions[name].node, ast.FunctionDef):
+            v = Q.FuncVal(m.functions[name].node, [])
+        elif name in m.assigns and len(m.assigns[name]) == 1:
+            v = interp.ev(m.assigns[name][0], [])
+        elif name in m.imports and name.isupper():
+            v = Q.Sent(name)  # NO_ARG / NO_KEY: marker objects, only their identity matters
+        else:
+            raise KeyError(name)
+        cache[name] = v
+        return v
+
+    interp.module_env = module_env
+    fac_env = {}
+    for st in fac.node.body:
+        if isinstance(st, ast.FunctionDef):
+            fac_env[st.name] = Q.FuncVal(st, [fac_env])
+    for mname, (d, w, fnparam) in _decorators(ctx, fac).items():
+        inner = [st for st in d.body if isinstance(st, FuncNode) and st.name == w.name]
+        ctx.require(len(inner) == 1, f"{fac.key}.{mname}: wrapper {w.name} not found in its decorator")
+        interp.wrappers[mname] = Q.FuncVal(inner[0], [{fnparam: Q.Underlying(mname)}, fac_env])
+    return interp
+
+
+@R.rule("C38-R12", floor=45, template="T-MODEL",
+        desc="bounded model check of the property itself: every wrapper is interpreted (AST interpreter; the wrapped "
+             "method is the builtin method, the event helpers only log) on every collection state of size <= 4 with every "
+             "argument of a small domain (members / non-members, lists with repeated elements, tuples, sets, frozensets, "
+             "one-shot iterators, the collection itself, mapping / pairs / keyword forms of dict.update, negative / "
+             "out-of-range / reversed indices and slices) and must leave the same contents, return the same value and "
+             "raise the same exception class as builtin list/set/dict, with append/remove events that account exactly "
+             "for the members that entered and left")
+def r12(ctx):
+    from . import _helpers_str2_q as Q
+    facs = _interfaces(ctx)
+    for t in TYPES:
+        fac = facs[t]
+        decs = _decorators(ctx, fac)
+        members, order_only = python_mutators(t)
+        mutators = set(members) | set(order_only)
+        interp = _model_interp(ctx, t, fac)
+        per_key, shown_of = {}, {}
+        for case in Q.CASES[t](ctx.thorough):
+            if case.mname not in decs:
+                continue  # missing decorator: C38-R1
+            key = f"{fac.key}.{case.mname}:model" + (f"[{case.aspect}]" if case.aspect else "")
+            rec = per_key.setdefault(key, [0, [], case.mname])
+            rec[0] += 1
+            interp.budget = 100000
+            try:
+                bad = Q.compare(interp, t, mutators, case)
+            except Q.Unsupported as e:
+                ctx.error(f"{key}: the wrapper uses a construct outside the model-checked subset: {e} (input: {case.show})")
+            if bad:
+                rec[1].append(bad)
+        for key, (n, bads, mname) in sorted(per_key.items()):
+            _, w, _ = decs[mname]
+            loc = f"{fac.module.path}:{w.lineno}"
+            if bads:
+                # one example per kind of divergence
+                kinds = {}
+                for b in bads:
+                    kinds.setdefault(re.sub(r"\[[^\]]*\]|\{[^}]*\}|\([^)]*\)", "..", b.split("` ", 1)[-1]), b)
+                # contents first, then return values, then exception classes
+                ex = sorted(kinds.values(), key=lambda b: (0 if "` leaves " in b else 1 if " but the builtin r" in b and "raises" not in b.split("` ", 1)[-1].split(" but ")[0] else 2))[:3]
+                ctx.violation(key, f"{t}.{mname} differs from builtin {t} on {len(bads)} of {n} inputs, e.g. " + "; ".join(ex), loc)
+            else:
+                ctx.ok(key, f"agrees with builtin {t} on {n} inputs (contents, return value, exception, event accounting)")
+
+
 # --------------------------------------------------------------------------------- self-test
 # R1
 R.mutant("list-clear-decorator-removed", COLL,
@@ -1737,4 +1832,64 @@ R.mutant("benign-list-iadd-delegates-to-extend", COLL,
 R.mutant("benign-dict-popitem-unpacked", COLL,
          sub("            item = fn(self)\n            __del(self, item[1], None, 1)\n            return item\n",
              "            popped = fn(self)\n            value = popped[1]\n            __del(self, value, None, 1)\n            return popped\n"),
+         None)
+
+# ---- round 2 (str2-q): seeds C38_3 / C38_4 and the family they belong to (C38-R12, bounded model check)
+_SYMDIFF = ("            want, have = self.symmetric_difference(other), set(self)\n            remove, add = have - want, want - have\n\n"
+            "            for item in remove:\n                self.remove(item)\n            for item in add:\n                self.add(item)\n")
+_TOGGLE = "            for item in list(other):\n                if item in self:\n                    self.remove(item)\n                else:\n                    self.add(item)\n"
+R.mutant("seed3-set-symdiff-update-per-item-toggle", COLL, sub(_SYMDIFF, _TOGGLE, count=2), "C38-R12")
+R.mutant("set-symdiff-update-toggle-named-method-only", COLL,
+         sub("        def symmetric_difference_update(self, other):\n" + _SYMDIFF, "        def symmetric_difference_update(self, other):\n" + _TOGGLE),
+         "C38-R12")
+# for `^=` the operand is a set (strict type check): toggling its members one by one IS the symmetric difference
+R.mutant("benign-set-ixor-toggle-after-strict-type-check", COLL,
+         sub("                return NotImplemented\n" + _SYMDIFF + "            return self\n", "                return NotImplemented\n" + _TOGGLE + "            return self\n"),
+         None)
+R.mutant("benign-set-symdiff-update-toggle-over-deduplicated-operand", COLL,
+         sub("        def symmetric_difference_update(self, other):\n" + _SYMDIFF,
+             "        def symmetric_difference_update(self, other):\n" + _TOGGLE.replace("list(other)", "set(other)")),
+         None)
+R.mutant("benign-set-symdiff-update-locals-renamed-one-loop-each", COLL,
+         sub("        def symmetric_difference_update(self, other):\n" + _SYMDIFF,
+             "        def symmetric_difference_update(self, other):\n            target = self.symmetric_difference(other)\n            current = set(self)\n"
+             "            for gone in current - target:\n                self.remove(gone)\n            for new in target - current:\n                self.add(new)\n"),
+         None)
+R.mutant("set-intersection-update-tests-membership-in-the-raw-operand", COLL,
+         sub("        def intersection_update(self, other):\n            want, have = self.intersection(other), set(self)\n            remove, add = have - want, want - have\n\n"
+             "            for item in remove:\n                self.remove(item)\n            for item in add:\n                self.add(item)\n",
+             "        def intersection_update(self, other):\n            for item in list(self):\n                if item not in other:\n                    self.remove(item)\n"),
+         "C38-R12")
+_DUPD = ("            if __other is not NO_ARG:\n                if hasattr(__other, \"keys\"):\n                    for key in list(__other):\n"
+         "                        if key not in self or self[key] is not __other[key]:\n                            self[key] = __other[key]\n"
+         "                        else:\n                            __set_wo_mutation(self, __other[key], None)\n"
+         "                else:\n                    for key, value in __other:\n                        if key not in self or self[key] is not value:\n"
+         "                            self[key] = value\n                        else:\n                            __set_wo_mutation(self, value, None)\n"
+         "            for key in kw:\n                if key not in self or self[key] is not kw[key]:\n                    self[key] = kw[key]\n"
+         "                else:\n                    __set_wo_mutation(self, kw[key], None)\n")
+_DUPD_LOOP = ("            for key, value in pairs:\n                if key not in self or self[key] is not value:\n                    self[key] = value\n"
+              "                else:\n                    __set_wo_mutation(self, value, None)\n")
+R.mutant("seed4-dict-update-one-loop-keywords-only-without-positional", COLL,
+         sub(_DUPD, "            if __other is NO_ARG:\n                pairs = kw.items()\n            elif hasattr(__other, \"keys\"):\n"
+                    "                pairs = [(key, __other[key]) for key in list(__other)]\n            else:\n                pairs = __other\n" + _DUPD_LOOP),
+         "C38-R12")
+R.mutant("benign-dict-update-one-loop-keywords-appended", COLL,
+         sub(_DUPD, "            if __other is NO_ARG:\n                pairs = []\n            elif hasattr(__other, \"keys\"):\n"
+                    "                pairs = [(key, __other[key]) for key in list(__other)]\n            else:\n                pairs = list(__other)\n"
+                    "            pairs = pairs + list(kw.items())\n" + _DUPD_LOOP),
+         None)
+R.mutant("dict-update-pairs-form-never-replaces", COLL,
+         sub("                    for key, value in __other:\n                        if key not in self or self[key] is not value:\n",
+             "                    for key, value in __other:\n                        if key not in self:\n"),
+         "C38-R12")
+R.mutant("list-pop-default-index-is-first", COLL,
+         sub("        def pop(self, index=-1):\n            __before_pop(self)\n", "        def pop(self, index=0):\n            __before_pop(self)\n"), "C38-R12")
+R.mutant("list-setitem-index-announces-removal-of-new-value", COLL,
+         sub("                if existing is not None:\n                    __del(self, existing, None, index)\n",
+             "                if existing is not None:\n                    __del(self, value, None, index)\n"),
+         "C38-R12")
+R.mutant("benign-list-insert-keyword-free-helper-closure", COLL,
+         sub("    def insert(fn):\n        def insert(self, index, value):\n            value = __set(self, value, None, index)\n            fn(self, index, value)\n",
+             "    def _announce(coll, member, position):\n        return __set(coll, member, None, position)\n\n"
+             "    def insert(fn):\n        def insert(self, index, value):\n            value = _announce(self, value, index)\n            fn(self, index, value)\n"),
          None)
